@@ -133,11 +133,20 @@ def split_segments(path):
 
 
 def ty_drop_pattern(seg):
-    """Known call site (C02): grammar/ty.rs `Err(Some(p.pop()))` — a Ckpt immediately followed by a Pop whose
-    token is never attached (next event is not Tok)."""
-    for i in range(len(seg) - 2):
-        if seg[i].startswith('{"e":"Ckpt"') and seg[i + 1].startswith('{"e":"Pop"') and not seg[i + 2].startswith('{"e":"Tok"'):
-            return True
+    """Known call site (C02): grammar/ty.rs `Err(Some(p.pop()))` — a Ckpt followed (possibly after lexer events of
+    the peek) by a Pop whose token is never attached (the next event is not Tok)."""
+    n = len(seg)
+    for i in range(n - 2):
+        if seg[i].startswith('{"e":"Ckpt"'):
+            j = i + 1
+            while j < n and (seg[j].startswith('{"e":"LexTok"') or seg[j].startswith('{"e":"LexErr"')):
+                j += 1
+            if j < n and seg[j].startswith('{"e":"Pop"'):
+                k = j + 1
+                while k < n and (seg[k].startswith('{"e":"LexTok"') or seg[k].startswith('{"e":"LexErr"')):
+                    k += 1
+                if k < n and not seg[k].startswith('{"e":"Tok"'):
+                    return True
     return False
 
 
@@ -220,4 +229,79 @@ def report_rejections(chk, rejected, prefix):
             core["what"] = norm_msg(rj["line"].get("what"))
         chk.violation(core, {"text": rj["text"], "tokLimit": rj["tokLimit"], "recLimit": rj["recLimit"],
                              "rejected_line": rj["line"], "at": rj["at"]})
+    return n
+
+
+# ------------------------------------------------------------------ composite flows
+
+
+LIMITS_C01 = [(-1, -1), (0, -1), (1, 0), (2, 1), (3, 2), (-1, 0), (-1, 1)]
+
+
+def token_string_cases(chk, cfg_names, out_path, entries, limits, trace=False, every=1):
+    """TLC (MC_Grammar) enumerates token strings; write parse-run cases for entries x limits."""
+    suffix = "_q" if chk.quick else "_t"
+    n_cases = 0
+    n_strings = 0
+    with open(out_path, "w", encoding="utf8") as fo:
+        for name in cfg_names:
+            cases = os.path.join(chk.work, "tok_cases.ndjson")
+            n, r = tlc_cases(chk, "MC_Grammar", "MC_Grammar_%s%s.cfg" % (name, suffix), cases, timeout=6000)
+            k = 0
+            with open(cases) as f:
+                for line in f:
+                    k += 1
+                    if k % every:
+                        continue
+                    toks = json.loads(line)[1]
+                    text = render(toks)
+                    n_strings += 1
+                    for e in entries:
+                        for (tl, rl) in limits:
+                            n_cases += 1
+                            fo.write(json.dumps({"id": n_cases, "entry": e, "text": text, "tok": tl, "rec": rl, "trace": trace},
+                                                ensure_ascii=False, separators=(",", ":")) + "\n")
+            os.remove(cases)
+    return n_strings, n_cases
+
+
+def classify_bad_obs(chk, bad, prefix):
+    """Bad observation records: re-run their example inputs with primitive-operation tracing so that the
+    rejection is located (and attributed to a known call site when it matches)."""
+    mine = [(u, f) for (u, f) in bad if any(x.startswith(prefix) for x in f)]
+    if not mine:
+        return []
+    mine.sort(key=lambda uf: len(uf[0].get("text") or ""))
+    cases = os.path.join(chk.work, "recheck.ndjson")
+    rows = []
+    for k, (u, f) in enumerate(mine[:300]):
+        if u.get("e") in ("Crash", "Hang") or u.get("e") == "Call":
+            continue
+        rows.append({"id": k, "entry": u["entry"], "text": u["text"], "tok": u.get("tokLimit", -1),
+                     "rec": u.get("recLimit", -1), "trace": True})
+    out = []
+    if rows:
+        vlib.write_ndjson(cases, rows)
+        tr = os.path.join(chk.work, "recheck_trace.ndjson")
+        run_bulk(chk, cases, tr)
+        segs, events, rejected = validate_traces(chk, tr)
+        out = rejected
+    return out
+
+
+def report_bad_obs(chk, bad, prefix):
+    """Crash / Hang / Call records and observation failures that tracing could not attribute."""
+    n = 0
+    for u, f in sorted(bad, key=lambda uf: len(uf[0].get("text") or "")):
+        mine = [x for x in f if x.startswith(prefix)]
+        if not mine:
+            continue
+        if u.get("e") in ("Crash", "Hang"):
+            core = {"class": u["e"].lower(), "entry": u.get("entry"), "what": norm_msg(u.get("what"))}
+        elif u.get("e") == "Call":
+            core = {"class": "compiler-call", "entry": u.get("entry"), "why": mine}
+        else:
+            continue
+        n += 1
+        chk.violation(core, {"text": u.get("text"), "tokLimit": u.get("tokLimit"), "recLimit": u.get("recLimit"), "what": u.get("what")})
     return n
